@@ -1,6 +1,9 @@
 package rules
 
 import (
+	"fmt"
+	"go/token"
+	"sort"
 	"go/types"
 
 	"golang.org/x/tools/go/ssa"
@@ -68,3 +71,337 @@ func (c *Ctx) isLoaderResourceLoader(t types.Type) bool {
 }
 
 var _ = prog.Info
+
+// ---------------------------------------------------------------------------
+// PANIC-CMP: comparing two interface values panics at run time when both hold
+// the same uncomparable dynamic type (a YAML list or mapping: []any,
+// map[string]any). Sites: `==` / `!=` (and switch cases) on two values of an
+// empty-interface type, generic library functions that compare elements
+// (slices.Contains / Index / Equal / Compact) instantiated at an interface
+// type, and map accesses with an interface-typed key. A site is safe when one
+// operand can only hold comparable types (a constant, a converted string / int
+// / bool, or a value whose inferred dynamic types are all comparable).
+// ---------------------------------------------------------------------------
+
+func comparableDyn(t types.Type) bool {
+	switch u := t.Underlying().(type) {
+	case *types.Basic, *types.Pointer, *types.Chan:
+		return true
+	case *types.Struct:
+		for i := 0; i < u.NumFields(); i++ {
+			if !comparableDyn(u.Field(i).Type()) {
+				return false
+			}
+		}
+		return true
+	case *types.Array:
+		return comparableDyn(u.Elem())
+	}
+	return false // slices, maps, funcs; interfaces are not dynamic types
+}
+
+func isEmptyInterface(t types.Type) bool {
+	it, ok := t.Underlying().(*types.Interface)
+	return ok && it.NumMethods() == 0
+}
+
+// onlyComparable: every dynamic type v can hold at block at is comparable.
+func (c *Ctx) onlyComparable(v ssa.Value, at *ssa.BasicBlock) bool {
+	if _, isC := v.(*ssa.Const); isC {
+		return true // nil, or an untyped constant converted to the interface
+	}
+	ts := c.dyn.At(v, at, nil, 3)
+	if ts.Top {
+		return false
+	}
+	for _, t := range ts.Ts {
+		if !comparableDyn(t) {
+			return false
+		}
+	}
+	return true
+}
+
+var comparingGenerics = map[string]bool{"Contains": true, "Index": true, "Equal": true, "Compact": true, "Compare": true}
+
+func (c *Ctx) PanicCMP(rule string, entry ...string) []report.Obligation {
+	var out []report.Obligation
+	r, missing := c.Reach(entry...)
+	for _, m := range missing {
+		out = append(out, anchorViolation(rule, m))
+	}
+	n := 0
+	for _, f := range r.Sorted(c.P) {
+		for _, b := range f.Blocks {
+			for _, in := range b.Instrs {
+				switch x := in.(type) {
+				case *ssa.BinOp:
+					if x.Op != token.EQL && x.Op != token.NEQ {
+						continue
+					}
+					if !isEmptyInterface(x.X.Type()) || !isEmptyInterface(x.Y.Type()) {
+						continue
+					}
+					if prog.IsNilConst(x.X) || prog.IsNilConst(x.Y) {
+						continue
+					}
+					n++
+					key := c.P.FuncID(f) + " :: " + c.P.KeyTerm(x.X, 2) + " " + x.Op.String() + " " + c.P.KeyTerm(x.Y, 2)
+					safe := c.onlyComparable(x.X, b) || c.onlyComparable(x.Y, b)
+					out = append(out, report.Obligation{Rule: rule, Key: key, Pos: c.P.InstrPos(x), Path: r.Path(c.P, f), Status: statusOf(safe),
+						Why: pick(safe, "one operand can only hold comparable dynamic types", "both operands are interface values whose dynamic type can be a list or a mapping: when both hold one (e.g. `[a]` on both sides) the comparison panics with `comparing uncomparable type`")})
+				case *ssa.Call:
+					callee := x.Call.StaticCallee()
+					if callee == nil || callee.Pkg == nil && callee.Origin() == nil {
+						continue
+					}
+					o := callee.Origin()
+					if o == nil || o.Pkg == nil || (o.Pkg.Pkg.Name() != "slices" && o.Pkg.Pkg.Name() != "maps") || c.P.IsModulePkg(o.Pkg.Pkg) || !comparingGenerics[o.Name()] {
+						continue
+					}
+					iface := false
+					for _, ta := range callee.TypeArgs() {
+						if types.IsInterface(ta) {
+							iface = true
+						}
+					}
+					if !iface {
+						continue
+					}
+					n++
+					key := c.P.FuncID(f) + " :: " + o.Pkg.Pkg.Name() + "." + o.Name() + " on interface elements"
+					out = append(out, report.Obligation{Rule: rule, Key: key, Pos: c.P.InstrPos(x), Path: r.Path(c.P, f), Status: report.Violation,
+						Why: o.Pkg.Pkg.Path() + "." + o.Name() + " compares elements with ==; instantiated at an interface type it panics when two elements hold the same uncomparable dynamic type (a list or a mapping)"})
+				case *ssa.Lookup:
+					if mt, ok := x.X.Type().Underlying().(*types.Map); ok && types.IsInterface(mt.Key()) {
+						n++
+						safe := c.onlyComparable(x.Index, b)
+						out = append(out, report.Obligation{Rule: rule, Key: c.P.FuncID(f) + " :: " + c.P.KeyTerm(x, 3), Pos: c.P.InstrPos(x), Path: r.Path(c.P, f), Status: statusOf(safe),
+							Why: pick(safe, "the key can only hold hashable dynamic types", "map access with an interface key whose dynamic type can be unhashable: panics with `hash of unhashable type`")})
+					}
+				case *ssa.MapUpdate:
+					if mt, ok := x.Map.Type().Underlying().(*types.Map); ok && types.IsInterface(mt.Key()) {
+						n++
+						safe := c.onlyComparable(x.Key, b)
+						out = append(out, report.Obligation{Rule: rule, Key: c.P.FuncID(f) + " :: MapUpdate(" + c.P.KeyTerm(x.Key, 3) + ")", Pos: c.P.InstrPos(x), Path: r.Path(c.P, f), Status: statusOf(safe),
+							Why: pick(safe, "the key can only hold hashable dynamic types", "map update with an interface key whose dynamic type can be unhashable: panics with `hash of unhashable type`")})
+					}
+				}
+			}
+		}
+	}
+	c.Stats[rule+".sites"] = n
+	out = append(out, report.Obligation{Rule: rule, Key: "inventory", Status: report.Discharged, Why: fmt.Sprintf("%d comparison sites on interface values in %d reachable functions", n, len(r.Sorted(c.P)))})
+	return out
+}
+
+func statusOf(ok bool) report.Status {
+	if ok {
+		return report.Discharged
+	}
+	return report.Violation
+}
+
+func pick(b bool, x, y string) string {
+	if b {
+		return x
+	}
+	return y
+}
+
+// ---------------------------------------------------------------------------
+// PANIC-REFL: the methods of reflect.Value that panic on the wrong Kind
+// (MapRange, SetMapIndex, MapKeys, MapIndex, Elem, Field, NumField, Index, Len,
+// IsNil) are applied to values made from the document. Each call is dominated
+// by a test of the receiver's Kind() (or Type()) that holds on that path, or
+// the receiver is made in place with a known kind (reflect.New).
+// ---------------------------------------------------------------------------
+
+var kindRestricted = map[string]bool{"MapRange": true, "SetMapIndex": true, "MapKeys": true, "MapIndex": true, "Elem": true,
+	"Field": true, "NumField": true, "Index": true, "Len": true, "IsNil": true, "SetLen": true, "Cap": true, "FieldByName": true}
+
+func isReflectValue(t types.Type) bool {
+	nt, ok := t.(*types.Named)
+	return ok && nt.Obj().Pkg() != nil && nt.Obj().Pkg().Path() == "reflect" && nt.Obj().Name() == "Value"
+}
+
+func (c *Ctx) PanicREFL(rule string, entry ...string) []report.Obligation {
+	var out []report.Obligation
+	r, missing := c.Reach(entry...)
+	for _, m := range missing {
+		out = append(out, anchorViolation(rule, m))
+	}
+	n := 0
+	for _, f := range r.Sorted(c.P) {
+		for _, b := range f.Blocks {
+			for _, in := range b.Instrs {
+				call, ok := in.(*ssa.Call)
+				if !ok {
+					continue
+				}
+				callee := call.Call.StaticCallee()
+				if callee == nil || callee.Signature.Recv() == nil || !isReflectValue(callee.Signature.Recv().Type()) || !kindRestricted[callee.Name()] {
+					continue
+				}
+				recv := call.Call.Args[0]
+				n++
+				key := c.P.FuncID(f) + " :: reflect.Value." + callee.Name() + " on " + c.P.KeyTerm(recv, 2)
+				safe, why := false, ""
+				// made in place with a known kind
+				if rc, isC := recv.(*ssa.Call); isC {
+					if cal := rc.Call.StaticCallee(); cal != nil && calleeName(cal) == "reflect.New" && callee.Name() == "Elem" {
+						safe, why = true, "receiver is the result of reflect.New: a pointer"
+					}
+					// iter.Value() of a map range over map[string]any is an interface value: Elem is defined on it
+				}
+				// a dominating test of recv.Kind() / recv.Type()
+				kindOf := func(v ssa.Value) bool {
+					kc, isC := v.(*ssa.Call)
+					if !isC {
+						return false
+					}
+					cal := kc.Call.StaticCallee()
+					if cal == nil || len(kc.Call.Args) == 0 {
+						return false
+					}
+					switch cal.Name() {
+					case "Kind":
+						if kc.Call.Args[0] == recv {
+							return true
+						}
+						// recv.Type().Kind()
+						if tc, ok := kc.Call.Args[0].(*ssa.Call); ok && tc.Call.StaticCallee() != nil && tc.Call.StaticCallee().Name() == "Type" && len(tc.Call.Args) > 0 && tc.Call.Args[0] == recv {
+							return true
+						}
+						if kc.Call.IsInvoke() {
+							return false
+						}
+					case "Type":
+						return kc.Call.Args[0] == recv
+					}
+					return false
+				}
+				if !safe {
+					for _, fct := range prog.DominatingFacts(b) {
+						bo, isB := fct.Cond.(*ssa.BinOp)
+						if !isB || (bo.Op != token.EQL && bo.Op != token.NEQ) {
+							continue
+						}
+						if (bo.Op == token.EQL) != fct.Val {
+							continue // the test failed on this path: it says what the kind is not
+						}
+						if kindOf(bo.X) || kindOf(bo.Y) {
+							safe, why = true, "dominated by a successful test of the receiver's Kind()/Type()"
+						}
+						// invoke form: Type().Kind() through the reflect.Type interface
+						for _, side := range []ssa.Value{bo.X, bo.Y} {
+							if kc, ok := side.(*ssa.Call); ok && kc.Call.IsInvoke() && kc.Call.Method.Name() == "Kind" {
+								if tc, ok := kc.Call.Value.(*ssa.Call); ok && tc.Call.StaticCallee() != nil && tc.Call.StaticCallee().Name() == "Type" && len(tc.Call.Args) > 0 && tc.Call.Args[0] == recv {
+									safe, why = true, "dominated by a successful test of the receiver's Type().Kind()"
+								}
+							}
+						}
+					}
+				}
+				out = append(out, report.Obligation{Rule: rule, Key: key, Pos: c.P.InstrPos(call), Path: r.Path(c.P, f), Status: statusOf(safe),
+					Why: pick(safe, why, "reflect.Value."+callee.Name()+" panics when the value has another kind; no test of the receiver's Kind() holds on this path, and the value comes from the document")})
+			}
+		}
+	}
+	out = append(out, report.Obligation{Rule: rule, Key: "inventory", Status: report.Discharged, Why: fmt.Sprintf("%d kind-restricted reflect.Value calls in reachable functions", n)})
+	return out
+}
+
+// ---------------------------------------------------------------------------
+// NILRET: a module function with results (P, error), P a pointer, that has a
+// `return nil, nil` path tells its callers "no value, no error". Every caller
+// that dereferences the result (field access, load, method call on it) does so
+// under a nil test of that result. (Contradiction rule: some callers test, so
+// the others must.)
+// ---------------------------------------------------------------------------
+
+func (c *Ctx) NILRET(rule string, entry ...string) []report.Obligation {
+	var out []report.Obligation
+	r, missing := c.Reach(entry...)
+	for _, m := range missing {
+		out = append(out, anchorViolation(rule, m))
+	}
+	nilnil := map[*ssa.Function]bool{}
+	for _, f := range r.Sorted(c.P) {
+		res := f.Signature.Results()
+		if res.Len() != 2 || !isErrorType(res.At(1).Type()) {
+			continue
+		}
+		if _, isPtr := res.At(0).Type().Underlying().(*types.Pointer); !isPtr {
+			continue
+		}
+		for _, ret := range returnsOf(f) {
+			if prog.IsNilConst(retValue(ret, 0)) && prog.IsNilConst(retValue(ret, 1)) {
+				nilnil[f] = true
+			}
+		}
+	}
+	n := 0
+	for _, f := range r.Sorted(c.P) {
+		for _, b := range f.Blocks {
+			for _, in := range b.Instrs {
+				call, ok := in.(*ssa.Call)
+				if !ok {
+					continue
+				}
+				callee := call.Call.StaticCallee()
+				if callee == nil || !nilnil[callee] {
+					continue
+				}
+				var res ssa.Value
+				for _, rf := range *call.Referrers() {
+					if ex, ok := rf.(*ssa.Extract); ok && ex.Index == 0 {
+						res = ex
+					}
+				}
+				if res == nil {
+					continue
+				}
+				for _, use := range *res.Referrers() {
+					deref := false
+					switch u := use.(type) {
+					case *ssa.FieldAddr:
+						deref = u.X == res
+					case *ssa.UnOp:
+						deref = u.Op == token.MUL && u.X == res
+					case *ssa.Call:
+						// method call with the result as receiver
+						if cal := u.Call.StaticCallee(); cal != nil && cal.Signature.Recv() != nil && len(u.Call.Args) > 0 && u.Call.Args[0] == res {
+							deref = true
+						}
+					}
+					if !deref {
+						continue
+					}
+					n++
+					ui := use.(ssa.Instruction)
+					tested := factHolds(ui.Block(), func(cond ssa.Value, val bool) bool {
+						bo, isB := cond.(*ssa.BinOp)
+						if !isB {
+							return false
+						}
+						if !(bo.X == res && prog.IsNilConst(bo.Y) || bo.Y == res && prog.IsNilConst(bo.X)) {
+							return false
+						}
+						return bo.Op == token.NEQ && val || bo.Op == token.EQL && !val
+					})
+					key := c.P.FuncID(f) + " :: result of " + c.P.FuncID(callee) + " used by " + c.P.KeyTerm(use.(ssa.Value), 1)
+					out = append(out, report.Obligation{Rule: rule, Key: key, Pos: c.P.InstrPos(ui), Path: r.Path(c.P, f), Status: statusOf(tested),
+						Why: pick(tested, "dereferenced under a nil test of the result", c.P.FuncID(callee)+" can return (nil, nil); this use dereferences the result after testing only the error")})
+				}
+			}
+		}
+	}
+	var names []string
+	for f := range nilnil {
+		names = append(names, c.P.FuncID(f))
+	}
+	sort.Strings(names)
+	out = append(out, report.Obligation{Rule: rule, Key: "inventory", Status: report.Discharged, Why: fmt.Sprintf("functions returning (nil, nil): %v; %d dereferencing uses of their results", names, n)})
+	return out
+}
